@@ -46,6 +46,8 @@
 //     that is compared with nil) is modelled by what the code can observe of
 //     it: `AbsPtr` (true = non-nil) for pointers, interfaces, maps, slices, …,
 //     `Unit` otherwise; `&T{…}` of abstract type is non-nil; an assignment to a
+//     field of abstract type of a translated struct (`mh.next`) is read as such
+//     an opaque value; an assignment to a
 //     field of an abstract object (`resp.Compress = true`) is an effect and is
 //     appended to the trace as `("set resp.Compress", ["true"])`; values read
 //     from abstract objects are re-read (fresh parameters) after any opaque
@@ -671,8 +673,10 @@ func (c *fctx) expr(e ast.Expr) ex {
 
 // opaqueValue turns an expression the subset cannot express (an element of a
 // slice, a field of a library struct) into an extra parameter holding its value.
-func (c *fctx) opaqueValue(e ast.Expr) ex {
-	lt := c.t.leanType(c.typeOf(e))
+func (c *fctx) opaqueValue(e ast.Expr) ex { return c.opaqueValueT(e, c.t.leanType(c.typeOf(e))) }
+
+// opaqueValueT is opaqueValue with the Lean type of the parameter given.
+func (c *fctx) opaqueValueT(e ast.Expr, lt string) ex {
 	if lt == "" {
 		fail("expression %s has untranslatable type %s", c.show(e), c.typeOf(e))
 	}
@@ -722,7 +726,9 @@ func (c *fctx) selector(x *ast.SelectorExpr) ex {
 		fail("embedded field path %s", c.show(x))
 	}
 	if c.t.leanType(sel.Obj().Type()) == "" {
-		fail("field %s has untranslatable type %s", c.show(x), sel.Obj().Type())
+		// a field of abstract type of a translated struct (`mh.next`): an
+		// opaque value like any other value of abstract type
+		return c.opaqueValueT(x, c.t.valType(sel.Obj().Type()))
 	}
 	base := c.expr(x.X)
 	f := leanIdent(x.Sel.Name)
